@@ -113,6 +113,14 @@ package dotgit
 // old value; nothing unlocks or closes the file between the check and the
 // write.
 
+// Reader side (known finding F47): readers open the loose file without a
+// lock, so the file must hold a whole value at every instant (git replaces it
+// by renaming a complete lock file). Emptying it in place (Truncate(0), then
+// Write) shows readers an empty file in between: they fall back to packed-refs
+// and report the reference absent, or with a stale packed value. Obligation
+// `whole`: the live reference file is never truncated; both Truncate calls of
+// the compare-and-swap writer fail it and are listed under F47.
+
 // checkReferenceAndTruncate returns nil only if no old value was given or the
 // stored value (loose file, else packed refs) equals the expected one: the
 // same kind of reference, the same id, and for a symbolic reference (type 2)
@@ -125,6 +133,8 @@ package dotgit
 //gvc:  sink Truncate requires compared: old != nil && ref != nil && forall(k, 0, 32, ref.h.hash[k] == old.h.hash[k])
 //gvc:  sink Truncate requires samekind: ref.t == old.t
 //gvc:  sink Truncate requires sametarget: ref.t == 2 ==> bytes_eq(ref.target, old.target)
+//gvc:  sink Truncate requires whole: false
+//gvc:  kf F47 whole: true
 //gvc:  grants checked: result == nil ==> f.#checked
 //gvc:end
 
@@ -145,6 +155,8 @@ package dotgit
 //gvc:  sink OpenFile requires safe: spec_refsafe(strid(arg0))
 //gvc:  sink OpenFile requires notrunc: arg1 & 0x200 == 0
 //gvc:  sink Truncate requires locked: ok ==> f.#locked
+//gvc:  sink Truncate requires whole: false
+//gvc:  kf F47 whole: true
 //gvc:  sink Write requires emptied: old == nil ==> calls("Truncate") >= 1
 //gvc:  sink Write requires locked: ok ==> f.#locked
 //gvc:  sink Write requires checked: f.#checked
